@@ -61,6 +61,11 @@ fixed("F51", "C14", "0b515b8", "C14.keyword-space|kw|print_if_expr|If", "mimium-
 fixed("F52", "C14", "74fa295", "C14.list-items|items|print_grouped_list", "mimium-fmt printed `fn f(x:float, g = 2.0, h)` as `fn f(x, :float, g, =2.0, h)`: the shared list printer skipped the comma tokens and put its own separator after every child, also inside a typed parameter or a default value (a different, unparsable program); findings/repro/F52_*.mmm")
 for _p in ("C05", "C03"):
     fixed("F57", _p, "6fde856", "C05.cursor|resize-before-execute|execute_main", "`fn counter(x){ self + x }  let init = counter(5.0)  fn dsp(){ init }`: Machine::execute_main ran the global initialiser on the global state storage without sizing it (only execute_idx did), so the stateful call wrote through an unchecked pointer into an empty Vec: SIGSEGV on the VM while WASM answered 5.0 (findings/repro/F57_*.mmm); execute_main now grows the storage to main's layout first")
+fixed("F63", "C14", "59084d1", "C14.skipped-trivia|skip|print_grouped_list|Comma", "`f(1.0, /* second */ 2.0)`: the list printer swallows the commas and re-creates them, and the comment attached to the comma went with it (findings/repro/F63_*.mmm); 18 of the 249 .mmm files of the repository lost a comment when formatted, 0 after the repair")
+fixed("F63", "C14", "59084d1", "C14.skipped-trivia|skip|print_block_expr|BlockEnd", "`fn dsp(){ .. } // end`: the block printer writes `}` itself and dropped its leading and trailing comments (findings/repro/F64_*.mmm)")
+for _k in ("BlockBegin", "BlockEnd", "Comma"):
+    fixed("F63", "C14", "59084d1", "C14.skipped-trivia|skip|print_use_target_multiple|" + _k, "`use m::{ /* first */ a, /* second */ b}`: braces and commas of a use list are written by the printer, their comments were dropped (findings/repro/F65_*.mmm)")
+fixed("F62", "C14", "266b19c", "C14.list-items|lone-comma|print_grouped_list", "`let t = (1.0,)  let (a,) = t`: print_grouped_list swallows the commas and writes items-1 separators back, so the comma that makes a one-element list a tuple was lost: `(1.0)` / `let (a) = t` parse to a different tree (findings/repro/F62_fmt_single_element_tuple.mmm); it now keeps a lone comma")
 for _p in ("C04", "C03"):
     fixed("F61", _p, "8f445b5", "C04.rewrite-complete|identity-default|convert_recursively|ImcompleteRecord", "`fn f(a:float = 1.0, b:float = 2.0){ a + b }  fn dsp(){ let x = 3.0  f({a = (x + 1.0), ..}) }`: convert_recursively had no arm for Expr::ImcompleteRecord and its catch-all hands the node back unchanged, so no pronoun pass ever visited the fields: the BinOp survived convert_operators and recursecheck panicked (both back ends, a valid program); findings/repro/F61_incomplete_record_operator.mmm")
 for _p in ("C08", "C07"):
